@@ -21,6 +21,7 @@ const (
 	AddrC3       = 0x1003
 	AddrEmpty    = 0x1009 // never exists in the pre-state
 	AddrEOA2     = 0x1010 // existing account without code
+	AddrDeleg    = 0x1020 // EIP-7702 delegated account (code 0xef0100 ++ target)
 	AddrSender   = 0x2001
 	AddrCoinbase = 0x3001
 )
@@ -120,6 +121,12 @@ func (w *World) NewState(rules params.Rules) *state.StateDB {
 		panic(err)
 	}
 	return out
+}
+
+// Delegation returns the EIP-7702 delegation designator for a small target address.
+func Delegation(target uint64) []byte {
+	a := Addr(target)
+	return append([]byte{0xef, 0x01, 0x00}, a[:]...)
 }
 
 func u64p(v uint64) *uint64 { return &v }
